@@ -181,6 +181,25 @@ def validator_reject_set(f, fn):
     preds = [p for p in scalar_predicates(f, b) if p['bits'] == 8 and p['true_set'] is not None]
     # the validator returns early on the union of its byte tests (a chain of ||): the blocks returning `i`
     r = Resolver(b)
+    if not preds:
+        # the same with a combinator: bytes.iter().position(|&b| reject(b)).unwrap_or(bytes.len())
+        rv = r.local(0)
+        if rv == ('loc', 0):
+            ds0 = b.defs.get(0, [])
+            rv = r.call(ds0[0][3], ds0[0][0], 0) if len(ds0) == 1 and ds0[0][2] == 'call' else rv
+        if rv[0] == 'call' and (rv[1] or '').endswith('Option::<T>::unwrap_or') and len(rv[2]) == 2 and rv[2][1] == ('len', ('loc', 1)):
+            pos = rv[2][0]
+            if pos[0] == 'call' and (pos[1] or '').endswith('::position') and len(pos[2]) == 2:
+                import r_kernel
+                if r_kernel.iter_roots(pos[2][0]) == [('arg', 1)]:
+                    for cname, cb in f.bodies.items():
+                        if cname.startswith(fn + '::{closure#') and cb.arg_count == 2:
+                            ra = RangeAnalysis(f, cb, {('deref', ('loc', 2)), ('loc', 2)}, 8, ISet.of((0, 255)), N=256)
+                            if ra.mixed:
+                                return None
+                            ts, fs, us = ra.return_value().truth_set()
+                            return ts if not us else None
+        return None
     # x = the byte loaded in the loop: the common leaf of the predicates
     leafs = {repr(p['leaf']) for p in preds}
     if len(leafs) != 1 or not preds:
